@@ -408,6 +408,42 @@ func setPath(tree any, path []string, val any) any {
 	return M{"o": out}
 }
 
+func hasMember(tree any, name string) bool {
+	m, ok := tree.(M)
+	if !ok {
+		return false
+	}
+	o, ok := m["o"].([]any)
+	if !ok {
+		return false
+	}
+	for _, e := range o {
+		if p := e.([]any); p[0].(string) == name {
+			_, isObj := p[1].(M)
+			return isObj && p[1].(M)["o"] != nil
+		}
+	}
+	return false
+}
+
+// setPathNew: as setPath, appending the last path component to the nested object when it is not there
+func setPathNew(tree any, path []string, val any) any {
+	if len(path) == 1 {
+		return setPath(tree, path, val)
+	}
+	m := tree.(M)
+	out := []any{}
+	for _, e := range m["o"].([]any) {
+		p := e.([]any)
+		if p[0].(string) == path[0] {
+			out = append(out, []any{p[0], setPathNew(p[1], path[1:], val)})
+		} else {
+			out = append(out, e)
+		}
+	}
+	return M{"o": out}
+}
+
 func init() {
 	executors["wire.marshal"] = func(c *Ctx, stream string, op M) {}
 	executors["b64"] = func(c *Ctx, stream string, op M) {
@@ -526,7 +562,56 @@ func init() {
 					mo["val"] = um["val"]
 					class = "accepted"
 				}
+				// a string whose last character carries non-zero padding bits ("e9"): Go's decoder accepts it unless Strict(); the property neither
+				// demands nor forbids that, so a rejection by the implementation is not compared (an acceptance must still give the model's value)
+				if dec, derr := base64.RawURLEncoding.DecodeString(s); derr == nil && base64.RawURLEncoding.EncodeToString(dec) != s && berr != nil {
+					c.Compare("wire.malformedBinary", M{"op": "wire.unmarshal", "type": w.ty, "doc": doc}, M{"ok": false}, M{"ok": false}, "noncanonical-rejected/"+w.ty, true)
+					continue
+				}
 				c.Compare("wire.malformedBinary", M{"op": "wire.unmarshal", "type": w.ty, "doc": doc}, impl, mo, class+"/"+w.ty, true)
+			}
+		}},
+		Stream{"wire.browserDocuments", func(c *Ctx) {
+			// a document a browser produces carries members this package does not know (authenticatorAttachment, clientExtensionResults,
+			// transports, publicKeyAlgorithm, hints, ...): they do not change what is unmarshalled
+			n := c.N(1500, 60000)
+			str := func(x string) M { return M{"s": hx([]byte(x))} }
+			extras := [][2]any{{"authenticatorAttachment", str("platform")}, {"clientExtensionOutputs", M{"o": []any{}}},
+				{"credProps", M{"o": []any{[]any{"credProps", M{"o": []any{[]any{"rk", M{"b": true}}}}}}}},
+				{"hints", M{"a": []any{str("security-key")}}}, {"attestationFormats", M{"a": []any{}}}, {"zzUnknown", nil}, {"aaUnknown", M{"n": 1}},
+				{"Type2", str("x")}, {"unknown member", M{"a": []any{M{"n": 1}, nil, M{"b": false}}}}}
+			nested := [][2]any{{"transports", M{"a": []any{str("usb"), str("nfc")}}}, {"publicKeyAlgorithm", M{"n": -7}}, {"publicKey", str("MFkw")},
+				{"authenticatorData2", str("AAAA")}, {"zz", nil}}
+			for i := 0; i < n; i++ {
+				w := genWire(c.R)
+				tree, _ := parseTree(w.text)
+				doc := tree
+				k := 1 + c.R.Intn(3)
+				for j := 0; j < k; j++ {
+					e := pick(c.R, extras)
+					doc = setPath(doc, []string{e[0].(string)}, e[1])
+				}
+				if (w.ty == "creationCredential" || w.ty == "assertionCredential") && c.R.Bool() {
+					e := pick(c.R, nested)
+					if hasMember(doc, "response") {
+						doc = setPathNew(doc, []string{"response", e[0].(string)}, e[1])
+					}
+				}
+				text := textOf(doc)
+				um := c.Call(M{"op": "wire.unmarshal", "type": w.ty, "doc": doc})
+				back, berr := w.back([]byte(text))
+				impl := M{"ok": berr == nil}
+				if berr == nil {
+					impl["val"] = back
+				}
+				mo := M{"ok": um["ok"]}
+				if ok, _ := um["ok"].(bool); ok {
+					mo["val"] = um["val"]
+				}
+				c.Compare("wire.browserDocuments", M{"op": "wire.unmarshal", "type": w.ty, "doc": doc}, impl, mo, w.ty, true)
+				// and the value is the one the document without the further members gives
+				plain, perr := w.back(w.text)
+				c.Compare("wire.browserDocuments.same", M{"op": "wire.sameValue", "type": w.ty, "text": text}, impl, M{"ok": perr == nil, "val": plain}, w.ty, true)
 			}
 		}},
 		Stream{"b64", func(c *Ctx) {
